@@ -1,0 +1,36 @@
+//go:build verif
+
+package webp
+
+import (
+	"github.com/deepteams/webp/internal/dsp"
+	"github.com/deepteams/webp/internal/lossy"
+)
+
+// Re-exports for the verification harness of property C13 (architecture
+// independence), which cannot import internal packages.
+
+// VerifArchKernels is one implementation of every kernel that has an assembly version.
+type VerifArchKernels = dsp.VerifArchKernels
+
+// VerifSegmentQuant is the encoder's per-segment quantiser.
+type VerifSegmentQuant = lossy.SegmentQuant
+
+// VerifArchBPS is the row stride of the kernels' work buffers.
+const VerifArchBPS = dsp.BPS
+
+func VerifArchPortable() VerifArchKernels   { return dsp.VerifArchPortable() }
+func VerifArchDispatched() VerifArchKernels { return dsp.VerifArchDispatched() }
+func VerifArchVariants() []VerifArchKernels { return dsp.VerifArchVariants() }
+func VerifArchHasAVX2() bool                { return dsp.VerifArchHasAVX2() }
+func VerifArchSetAVX2(v bool) bool          { return dsp.VerifArchSetAVX2(v) }
+
+func VerifArchQuantize(portable bool, in []int16, sq *VerifSegmentQuant, firstCoeff int) ([16]int16, int) {
+	return lossy.VerifArchQuantize(portable, in, sq, firstCoeff)
+}
+func VerifArchQuantizeInPlace(portable bool, in []int16, sq *VerifSegmentQuant, firstCoeff int) ([16]int16, int) {
+	return lossy.VerifArchQuantizeInPlace(portable, in, sq, firstCoeff)
+}
+func VerifArchDequant(portable bool, in []int16, sq *VerifSegmentQuant) [16]int16 {
+	return lossy.VerifArchDequant(portable, in, sq)
+}
